@@ -1026,10 +1026,10 @@ class Interp:
         def walk(path, v, d, in_result=False):
             if isinstance(v, Enum):
                 items.append((path, tuple(sorted(v.v))))
-                if d < 3:
+                if d < 6:
                     for i, s in v.v.items():
                         walk("%s#%d" % (path, i), s, d + 1, in_result or (v.adt == "std::result::Result" and i == 1))
-            elif isinstance(v, Struct) and d < 4:
+            elif isinstance(v, Struct) and d < 7:
                 for i, x in v.f.items():
                     if isinstance(x, (Enum, Struct)):
                         walk("%s.%s" % (path, i), x, d + 1, in_result)
@@ -1374,6 +1374,8 @@ class Interp:
                 if not s2.sys.bottom and self.feasible_wrt(s2, v.e.t):
                     out.append((tb, s2, None))
             s2 = st.copy()
+            for val, _ in targets:
+                s2.sys.add_ne(v.e - val)
             # exclude the listed values at the ends of the range
             for val, _ in sorted(targets):
                 if s2.sys.entails_ge(v.e - val):
